@@ -616,6 +616,11 @@ func checkC14FaultOutcome(c C14Case, base, flt *sessRun, fs *simos.FS, info *cas
 		if p.Stdin != nil && p.Stdin.From == "file:"+fo.output {
 			return nil, log, info
 		}
+		if fs.Fifos[fo.output] {
+			// what a failed attempt wrote into a pipe has been delivered and
+			// cannot be taken back: a retry is not the same run
+			return nil, log, info
+		}
 	}
 	// invariant 6: once faults stop, the same session on the disk the failed
 	// attempt left behind gives exactly the fault-free result
